@@ -38,10 +38,10 @@ func checkC08(c *km.Ctx) {
 	r.NotDecided = []string{"directory content and group membership", "the actor x level x target x operation matrix as executions"}
 	r.Assume = []string{"go/types + go/ssa model the source faithfully", "admin-ness is defined by IsAdminUser / IsAdminUserAndU2F / isAutomationAdmin"}
 
-	r.Rule("R-C08-1", "at every profile accessor the user operand is the authenticated user, or equal to it, or the path holds the admin fact of the operation class", 25)
-	r.Rule("R-C08-2", "IsAdminUserAndU2F = IsAdminUser ∧ U2F bit; IsAdminUser returns a cached verdict only while valid and never refreshes the timestamp on a hit; cache lifetime constant <= 5 min; isValid is now-ts < max; _IsAdminUser returns true only from name/group matches", 8)
+	r.Rule("R-C08-1", "at every profile accessor the user operand is the authenticated user, or equal to it, or the path holds the admin fact of the operation class", 13)
+	r.Rule("R-C08-2", "IsAdminUserAndU2F = IsAdminUser ∧ U2F bit; IsAdminUser returns a cached verdict only while valid and never refreshes the timestamp on a hit; cache lifetime constant <= 5 min; isValid is now-ts < max; _IsAdminUser returns true only from name/group matches", 5)
 	r.Rule("R-C08-3", "GetUsers (listing) is reachable only under the administrator fact", 1)
-	r.Rule("R-C08-4", "automation certificates are minted only under isAutomationAdmin(authUser) and only for identities that passed isAutomationUser", 3)
+	r.Rule("R-C08-4", "automation certificates are minted only under isAutomationAdmin(authUser) and only for identities that passed isAutomationUser", 1)
 
 	checkAuth := c.MustFunc("R-C08-1", "cmd/keymasterd", "(*RuntimeState).checkAuth")
 	checkUserPassword := c.MustFunc("R-C08-1", "cmd/keymasterd", "checkUserPassword")
